@@ -668,11 +668,18 @@ func (c *minecraftConn) SwitchSessionHandler(registry *state.Registry) bool {
 	}
 
 	var releaseErr error
+	var activated SessionHandler
 	c.sessionHandlerMu.Lock()
 	defer func() {
 		c.sessionHandlerMu.Unlock()
 		// Closing needs sessionHandlerMu, so only close now if releasing the play packet queue failed.
 		c.closeOnWriteErr(releaseErr, "releasePlayPacketQueue")
+		// Like SetActiveSessionHandler, call Activated() only after sessionHandlerMu is released:
+		// a handler that closes the connection in Activated() (directly or through a failing
+		// write) runs the teardown, which needs sessionHandlerMu.
+		if activated != nil {
+			activated.Activated()
+		}
 	}()
 
 	handler, ok := c.sessionHandlerMu.sessionHandlers[registry]
@@ -694,7 +701,7 @@ func (c *minecraftConn) SwitchSessionHandler(registry *state.Registry) bool {
 
 	c.sessionHandlerMu.activeSessionHandler = handler
 	releaseErr = c.setState(registry)
-	handler.Activated()
+	activated = handler
 
 	c.log.V(1).WithName("SwitchSessionHandler").
 		Info("switched session handler", "state", registry.String(), "handler", fmt.Sprintf("%T", handler))
